@@ -284,10 +284,38 @@ pub fn pr_ctx(c: u32) -> String {
 }
 
 pub const WATCHDOG_MS: u64 = 8000;
+pub static PARALLEL: std::sync::atomic::AtomicBool = std::sync::atomic::AtomicBool::new(false);
+
+thread_local! {
+    /// set on the persistent worker threads of `@t/` ops: EXEC runs on the calling thread itself
+    pub static INLINE: std::cell::Cell<bool> = std::cell::Cell::new(false);
+}
+
+fn exec_here(cx: Context, src: &str, via_execute: bool) -> String {
+    let r = catch_unwind(AssertUnwindSafe(|| {
+        if via_execute {
+            expression_engine::execute(src, cx).map(|v| pr_value(&v)).map_err(|_| ())
+        } else {
+            let mut cx = cx;
+            match expression_engine::parse_expression(src) {
+                Ok(ast) => ast.exec(&mut cx).map(|v| pr_value(&v)).map_err(|_| ()),
+                Err(_) => Err(()),
+            }
+        }
+    }));
+    match r { Ok(Ok(v)) => format!("OK:{}", v), Ok(Err(())) => "ERR".to_string(), Err(_) => "PANIC".to_string() }
+}
 
 /// parse_expression(s)?.exec(&mut ctx) on a worker thread; DEADLOCK when it does not come back
 pub fn op_exec(c: u32, src: String, via_execute: bool) -> (String, bool) {
-    wlock().log.clear();
+    if INLINE.with(|f| f.get()) {
+        wlock().log.clear();
+        let r = exec_here(ctx(c), &src, via_execute);
+        return (format!("{}:{}:{}", r, pr_log(), pr_ctx(c)), false);
+    }
+    if !PARALLEL.load(std::sync::atomic::Ordering::SeqCst) {
+        wlock().log.clear();
+    }
     let cx = ctx(c);
     let (tx, rx) = std::sync::mpsc::channel();
     std::thread::Builder::new().stack_size(2 * 1024 * 1024).spawn(move || {
